@@ -165,7 +165,27 @@ def shrink_prog(case):
             lst = op[-1][:len(op[-1]) // 2]
             q["ops"] = ops[:i] + [(f, op[:-1] + (lst,))] + ops[i + 1:]
             out.append(q)
-    return [vlib.pcase(q) for q in out]
+    return [vlib.pcase(fix_sow(q)) for q in out]
+
+
+def fix_sow(pc):
+    """recompute what each `sow` (orientation extended by a word) results in, after ops were dropped"""
+    cur = (pc["opts"]["rot"], bool(pc["opts"]["mir"]))
+    ops = []
+    for f, op in pc["ops"]:
+        if op[0] == "so" and f < 0:
+            cur = (op[1], bool(op[2]))
+        elif op[0] == "sow":
+            r, m = cur
+            for x in op[1]:
+                r, m = vlib.compose_orient(r, m, x)
+            op = ("sow", op[1], r, m)
+            if f < 0:
+                cur = (r, m)
+        ops.append((f, op))
+    q = dict(pc)
+    q["ops"] = ops
+    return q
 
 
 # ---- cases at the Interface boundary (L1) or below the real transports (L2), for Corr/DrawL.v
